@@ -611,12 +611,18 @@ func (c *wsConn) setupPings() func() {
 		}
 		return nil
 	})
+	conn := c.conn
 	c.conn.SetPingHandler(func(appData string) error {
 		// treat pings as pongs - this lets us register server activity even if it's too busy to respond to our pings
 		select {
 		case c.pongs <- struct{}{}:
 		default:
 		}
+		// still answer the ping, like the default handler this one replaces:
+		// a peer with a short timeout otherwise sees no traffic from us between
+		// our own (possibly much rarer) pings and drops a healthy connection.
+		// WriteControl may be called concurrently with the other writers.
+		_ = conn.WriteControl(websocket.PongMessage, []byte(appData), time.Now().Add(time.Second))
 		return nil
 	})
 
